@@ -841,7 +841,7 @@ func run(c *fw.Ctx) {
 	}
 	c.Sample(kase{Kind: "pair", Class: "bilinear", A: "5", B: nm1.String()})
 
-	// ---- part 3: verification.  Passes are ordered so that a time cap cuts the cheapest-to-lose work last:
+	// ---- part 3: verification.  Passes are ordered by decreasing information, so a time cap drops the least informative cases:
 	// A structured lists (all contexts), B signature flips, C public-key flips, D (thorough) double flips / byte replacement.
 	identSig := make([]byte, 64)
 	type vctx struct {
@@ -916,8 +916,11 @@ func run(c *fw.Ctx) {
 			return
 		}
 	}
-	// pass C: public-key bit flips
+	// pass C: public-key bit flips (the key does not depend on the message: quick uses the first message of every key)
 	for _, x := range ctxs {
+		if !c.Thorough() && !bytes.Equal(x.msg, e.msgs[0]) {
+			continue
+		}
 		nb := len(x.hpk) * 8
 		for i := 0; i < nb && !stop; i++ {
 			for _, pp := range pkPaths {
